@@ -106,7 +106,7 @@ class C05(Check):
     RUN = "run_case5"
     CASE_TYPE = "case5"
     N_QUICK = 24          # programs; each explored over many schedules
-    N_THOROUGH = 400
+    N_THOROUGH = 120
     extra_dirs = ("C04",)
     RULE = ("programs of 2-3 threads x 1-3 calls (consume in 3 currencies with/without debt, regenerate, "
             "convert_nadh_to_atp, transfer_to incl. opposite directions) on 1-2 shared ATP_Store objects with small contended "
@@ -228,7 +228,7 @@ class C05(Check):
 
     def gen_cases(self, rng, n):
         bound = 2 if self.tier == "quick" else 3
-        per = 60 if self.tier == "quick" else 400
+        per = 60 if self.tier == "quick" else 250
         out = []
         progs = list(self.CORPUS_PROGRAMS) + [self._rand_program(rng) for _ in range(n)]
         for p in progs:
